@@ -497,7 +497,7 @@ func judgeValue(c *core.Ctx, v *vcase, e vexp, o vobs, what string) bool {
 			c.Violation(fmt.Sprintf("a command-line value that strconv rejects was accepted: ran=%v err=%v value=%s", o.ran, o.err, vstr(o.got)), nil, nil)
 			return false
 		}
-		if !strings.Contains(o.stderr, "Usage: app") || !strings.Contains(o.stderr, "Error: ") {
+		if !strings.Contains(o.stderr, "Usage: app") || !hasErrorText(o.stderr) {
 			c.Violation("an unparsable value did not produce a usage error on the error stream", map[string]interface{}{"stderr": truncateStr(o.stderr, 300)}, nil)
 			return false
 		}
